@@ -350,6 +350,12 @@ func (c *client) connect1(ctx async.Context) (internalConn, status.Status) {
 		return conn, st
 	}
 
+	// Closed has priority, Close also cancels this routine,
+	// and a pending call must get a closed status, not a cancelled one.
+	if c.closed_.IsSet() {
+		return nil, status.Closedf("mpx client closed")
+	}
+
 	// Return if cancelled/closed
 	select {
 	case <-ctx.Wait():
